@@ -2,6 +2,7 @@ package main
 
 import (
 	"encoding/json"
+	"errors"
 	"fmt"
 	"os"
 	"path/filepath"
@@ -11,6 +12,7 @@ import (
 
 	"github.com/feichai0017/NoKV/utils"
 	"github.com/feichai0017/NoKV/utils/verifhook"
+	"github.com/feichai0017/NoKV/vfs"
 	"verifharness/internal/corr"
 	"verifharness/internal/sched"
 )
@@ -24,9 +26,10 @@ import (
 // directory and whether the LOCK file exists.
 
 type dlDesc struct {
-	N        int   `json:"n"`
-	Schedule []int `json:"schedule"`        // picks; the run is completed round-robin afterwards
-	Procs    bool  `json:"procs,omitempty"` // contenders are child processes instead of goroutines
+	N        int    `json:"n"`
+	Faulty   []bool `json:"faulty,omitempty"` // contenders whose unlink of LOCK fails once; every contender calls Release twice
+	Schedule []int  `json:"schedule"`         // picks; the run is completed round-robin afterwards
+	Procs    bool   `json:"procs,omitempty"`  // contenders are child processes instead of goroutines
 }
 
 type dlStep struct {
@@ -38,11 +41,16 @@ type dlStep struct {
 }
 
 // pc tags shared with Corr/RunDirLock.v
+var errInjectedUnlink = errors.New("injected unlink failure")
+
 func dlTag(st sched.Step, res int) int {
 	switch st.Status {
 	case sched.Finished:
 		if res == 2 {
 			return 9 // busy
+		}
+		if res == 4 {
+			return 10 // Release reported the injected unlink error
 		}
 		return 8 // released
 	case sched.Parked:
@@ -81,7 +89,13 @@ func dlRun(base string, d dlDesc) ([]dlStep, []int, error) {
 	for t := 0; t < d.N; t++ {
 		t := t
 		s.Spawn(t, func() {
-			l, err := utils.AcquireDirLock(dir, nil)
+			var fs vfs.FS
+			faulty := t < len(d.Faulty) && d.Faulty[t]
+			if faulty {
+				policy := vfs.NewFaultPolicy(vfs.FailOnceRule(vfs.OpRemove, filepath.Join(dir, "LOCK"), errInjectedUnlink))
+				fs = vfs.NewFaultFSWithPolicy(vfs.OSFS{}, policy)
+			}
+			l, err := utils.AcquireDirLock(dir, fs)
 			if err != nil {
 				mu.Lock()
 				if strings.Contains(err.Error(), "already in use") {
@@ -100,8 +114,12 @@ func dlRun(base string, d dlDesc) ([]dlStep, []int, error) {
 			held[t] = false
 			mu.Unlock()
 			rerr := l.Release()
+			// the owner retries: after Release has run once (with or without an error) a second call must do nothing
+			_ = l.Release()
 			mu.Lock()
-			if rerr != nil {
+			if rerr != nil && faulty && errors.Is(rerr, errInjectedUnlink) {
+				res[t] = 4
+			} else if rerr != nil {
 				res[t] = 3
 			} else {
 				res[t] = 1
@@ -160,7 +178,15 @@ func dlCase(base string, d dlDesc) (corr.Case, error) {
 		ss = append(ss, fmt.Sprintf("S %d %s %d %s %s", st.T, corr.Bool(st.Ran), st.Tag, corr.List(hs), corr.Bool(st.Path)))
 	}
 	_ = full
-	return corr.Case{Coq: fmt.Sprintf("Cs %d %s", d.N, corr.List(ss)), Nontrivial: multi || retried, Desc: d}, nil
+	head := fmt.Sprintf("Cs %d", d.N)
+	if len(d.Faulty) > 0 {
+		fl := make([]string, len(d.Faulty))
+		for i, f := range d.Faulty {
+			fl[i] = corr.Bool(f)
+		}
+		head = fmt.Sprintf("Cf %d %s", d.N, corr.List(fl))
+	}
+	return corr.Case{Coq: head + " " + corr.List(ss), Nontrivial: multi || retried, Desc: d}, nil
 }
 
 func runDirLock(c *corr.Ctx) error {
@@ -233,7 +259,12 @@ func runDirLock(c *corr.Ctx) error {
 	if c.Tier == "search" {
 		bound = 8
 	}
+	// contenders without faults are interchangeable: the quick tier only runs schedules whose first pick is contender 0
+	quick := c.Tier != "thorough"
 	sched.Prefixes(3, bound, func(w []int) bool {
+		if quick && len(w) > 0 && w[0] != 0 {
+			return true
+		}
 		c.Count("prefix_schedules")
 		ferr = emit(dlDesc{N: 3, Schedule: w}, seen)
 		return ferr == nil
@@ -254,7 +285,7 @@ func runDirLock(c *corr.Ctx) error {
 			return
 		}
 		for t := 0; t < 3; t++ {
-			if t == last {
+			if t == last || (quick && last == -1 && t != 0) {
 				continue
 			}
 			for l := 1; l <= maxRun; l++ {
@@ -273,6 +304,48 @@ func runDirLock(c *corr.Ctx) error {
 	}
 	if ferr != nil {
 		return ferr
+	}
+	// 2a. the unlink of LOCK fails for contender 0 and its owner calls Release again: contender 0 runs up to
+	// the end of its first Release, then every schedule of 3 runs (lengths 1..3) over the three contenders
+	for _, k := range []int{6, 7, 8} {
+		if quick && k != 7 {
+			continue
+		}
+		head := make([]int, k)
+		var rec3 func(prefix []int, last, left int)
+		rec3 = func(prefix []int, last, left int) {
+			if ferr != nil {
+				return
+			}
+			if left == 0 {
+				c.Count("faulty_unlink_schedules")
+				ferr = emit(dlDesc{N: 3, Faulty: []bool{true, false, false}, Schedule: prefix}, seen)
+				return
+			}
+			for t := 0; t < 3; t++ {
+				if t == last {
+					continue
+				}
+				for l := 1; l <= 3; l++ {
+					p := append([]int(nil), prefix...)
+					for i := 0; i < l; i++ {
+						p = append(p, t)
+					}
+					rec3(p, t, left-1)
+				}
+			}
+		}
+		rec3(head, -1, 3)
+		if ferr != nil {
+			return ferr
+		}
+	}
+	for i := 0; i < c.Scale(100, 2000); i++ {
+		d := dlDesc{N: 3, Faulty: []bool{c.Rng.Intn(2) == 0, c.Rng.Intn(2) == 0, c.Rng.Intn(3) == 0}, Schedule: sched.RandomBlocks(c.Rng, 3, 8+c.Rng.Intn(24), 8)}
+		c.Count("faulty_unlink_random")
+		if err := emit(d, seen); err != nil {
+			return err
+		}
 	}
 	// 2b. real child processes (3 processes synchronised through pipes)
 	procSeen := map[string]bool{}
